@@ -1,6 +1,6 @@
 (* Proofs/C12.v — decoding what the encoder wrote gives back the sorted entries. *)
 From Coq Require Import List NArith ZArith Arith Lia ZifyBool ZifyNat ZifyN Bool.
-From GoGit Require Import Base.Out Model.IndexFile.
+From GoGit Require Import Base.Out Model.IndexFile Gen.C12.
 Import ListNotations.
 Local Open Scope N_scope.
 
@@ -447,3 +447,14 @@ Proof.
       rewrite IH; [|cbn in Hlen; lia|lia|assumption].
       cbn [rev combine]. rewrite <- app_assoc. reflexivity.
 Qed.
+
+(* ---- the constants of the model are the constants of the source (Gen/C12.v is regenerated
+   from plumbing/format/index/decoder.go and utils/binary/read.go on every run) ---- *)
+Lemma gen_constants :
+  index_entryHeaderLength = Z.of_N entryHeaderLength /\ index_entryHeaderLength = 42%Z /\
+  index_entryExtended = Z.of_N entryExtended /\ index_entryExtended = (2 ^ 14)%Z /\
+  index_nameMask = Z.of_N nameMask /\ (index_nameMask + 1 = 4096)%Z /\
+  index_intentToAddMask = Z.of_N intentToAddMask /\ index_intentToAddMask = (2 ^ 13)%Z /\
+  index_skipWorkTreeMask = Z.of_N skipWorkTreeMask /\ index_skipWorkTreeMask = (2 ^ 14)%Z /\
+  binary_maskContinue = 128%Z /\ binary_maskLength = 127%Z /\ (2 ^ binary_lengthBits = 128)%Z.
+Proof. vm_compute. repeat split; reflexivity. Qed.
